@@ -7,7 +7,7 @@ RULE = ('python-random histories under a system-bus-like policy (only requested 
         'calls, genuine / duplicate / wrong-serial / third-party / late replies, serial reuse, NO_REPLY calls, callee and caller '
         'disconnects in the same round as the reply, per-connection pending-reply limit 2-3; every 3rd scenario runs with a '
         'finite reply_timeout and a train of keep-alive calls so that old slots must expire while newer ones are pending; '
-        'every sixth scenario: one caller with the same serial outstanding towards two or three callees that answer in any order (plus duplicates), with small serials and serials whose top bit is set; '
+        'every sixth scenario: one caller with the same serial outstanding towards two or three callees that answer in any order (plus duplicates), with small serials and serials whose top bit is set; every twelfth: a callee leaves while older calls between others are still pending; '
         'distinct = distinct scenario texts')
 W = {'req': 1.2, 'rel': 0.4, 'query': 0.2, 'addmatch': 0.3, 'rmmatch': 0.1, 'signal': 0.4, 'call': 6, 'reply': 6,
      'usignal': 0.5, 'close': 0.6, 'driver_other': 0.2, 'nodest': 0.1}
@@ -64,9 +64,34 @@ def shared_serial(rng):
     return {'cfg': cfg, 'rounds': rounds}
 
 
+def orphan_behind_older(rng):
+    """a callee leaves while OLDER calls between other connections are still unanswered: its caller is told NoReply at
+    once (exactly once), the older calls stay pending and can still be answered"""
+    cfg = {'policy_ctxs': policygen.SYSTEM_LIKE, 'maxReplies': 100000}
+    names = {2: 'com.example.A', 3: 'com.example.B', 4: 'com.example.A.Sub'}
+    rounds = [{'ops': {'1': [{'k': 'connect', 'uid': 0}, {'k': 'hello'}]}}]
+    for s, n in names.items():
+        rounds.append({'ops': {str(s): [{'k': 'connect', 'uid': 0}, {'k': 'hello'}, {'k': 'req', 'n': n, 'f': 0}]}})
+    call = lambda dst, ser: {'k': 'send', 'ty': 1, 'dst': dst, 'path': '/a', 'ifc': 'com.example.I', 'mem': 'Ma', 'sig': 'u', 'body': [ser], 'ser': ser, 'fl': 0}
+    older = rng.sample([2, 3], rng.choice([1, 2]))
+    for k, c in enumerate(older):
+        rounds.append({'ops': {'1': [call(names[c], 7001 + k)]}})              # stay unanswered for now
+    rounds.append({'ops': {str(rng.choice([2, 3])): [call(names[4], 7101)]}})  # somebody calls the one who will leave
+    if rng.random() < 0.5:
+        rounds.append({'ops': {'1': [call(names[4], 7102)]}})
+    rounds.append({'ops': {'4': [{'k': rng.choice(['close', 'aclose'])}]}})
+    rounds.append({'ops': {'1': [{'k': 'query', 'q': 'list'}]}})
+    for k, c in enumerate(older):
+        rounds.append({'ops': {str(c): [{'k': 'send', 'ty': 2, 'dst': {'slot': 1}, 'rs': 7001 + k, 'sig': 's', 'body': ['late but fine']}]}})
+    rounds.append({'ops': {'1': [{'k': 'query', 'q': 'list'}]}})
+    return {'cfg': cfg, 'rounds': rounds}
+
+
 def gen(rng, i):
     if i % 6 == 3:
         return shared_serial(rng)
+    if i % 12 == 7:
+        return orphan_behind_older(rng)
     timed = (i % 3 == 2)
     cfg = {'policy_ctxs': policygen.SYSTEM_LIKE, 'maxReplies': rng.choice([2, 3, 100000])}
     if timed:
